@@ -2,7 +2,8 @@
    Independent of Model/Equal.v.  Dicts are compared as FINITE MAPS (same key -> same
    value, order irrelevant); children are compared in order.  Node ids are not part of
    structural equality. *)
-From MP Require Import Common.Base Common.Tree.
+From MP Require Import Common.Base.
+From MP Require Import Common.Tree.
 
 (** two association lists denote the same finite map *)
 Definition map_eq (a b : list (pystr * pystr)) : Prop := forall k, assoc k a = assoc k b.
